@@ -13,6 +13,7 @@ from sa.norm import T
 from sa.report import Check
 
 from .common import (
+    callee_name,
     depends_on,
     flow_of,
     g,
@@ -58,6 +59,38 @@ def _cmp_on(path_tmpl: str, rel: str, const: int, **binds: str):
     return test
 
 
+def _exclusion_predicates(chk: Check, rule: str, f: Func, fl: Flow) -> None:
+    """`iv.replace_uses_with_if(new, lambda use: ..)`: every use of the old induction value is redirected, except those of the ops this
+    very rewrite has just built from it (excluded by identity) - an exclusion by op KIND also spares ops of that kind that were there
+    before (left behind by an earlier application of the pattern, or written by the user)"""
+    for s in [x for x in fl.calls("replace_uses_with_if") if x.reachable]:
+        call = s.node
+        assert isinstance(call, ast.Call)
+        if len(call.args) < 2 or not isinstance(call.args[1], ast.Lambda) or len(call.args[1].args.args) != 1:
+            raise AnalysisError(f"{s.where()}: replace_uses_with_if without a one-argument lambda")
+        lam = call.args[1]
+        u = lam.args.args[0].arg
+        atoms_ = norm.atoms(lam.body, True)
+        bad = []
+        for a in atoms_:
+            m = norm.any_match([f"{u}.operation is not $x", f"{u}.operation != $x", f"{u}.operation.parent_op() is $x", f"{u}.operation is $x"], a)
+            if m is None:
+                bad.append(ast.unparse(a)[:80])
+                continue
+            # the excluded op is one created here from the old value
+            if norm.any_match([f"{u}.operation is not $x", f"{u}.operation != $x"], a) is not None:
+                x = fl.cone(m["x"], s, inline=0)
+                tgt = ast.unparse(norm.primary(s.expand(call.func.value)))  # type: ignore[attr-defined]
+                made_here = any(isinstance(c, ast.Call) and callee_name(c) in ("DivUIOp", "RemUIOp", "MuliOp", "AddiOp", "SubiOp")
+                                and any(ast.unparse(norm.primary(s.expand(a_))) == tgt or tgt in ast.unparse(fl.cone(a_, s, inline=0)) for a_ in c.args) for c in ast.walk(x))
+                if not made_here:
+                    bad.append(ast.unparse(a)[:80] + " (not an op built here from the replaced value)")
+        chk.result(not bad, rule, f"{f.key}:exclusion@{call.lineno}", s.where(),
+                   "only the op(s) just built from the old induction value keep reading it (excluded by identity)",
+                   f"uses are kept on the old induction value under `{bad}`: ops of that kind that already existed (e.g. the div/rem left by an earlier merge in a "
+                   "depth-3 nest) keep reading the raw merged counter")
+
+
 def _floor_divs_unsafe(e: ast.AST, site: Site) -> list[str]:
     """floor divisions in `e` that are neither in a ceiling form nor covered by a divisibility fact"""
     out = []
@@ -99,6 +132,7 @@ def run(repo: Repo, chk: Check) -> None:
     merge_for_loops(repo, chk)
     hoist(repo, chk)
     dims(repo, chk)
+    dim_sources(repo, chk)
     dim_operand(repo, chk)
     helper_captures(repo, chk)
 
@@ -198,6 +232,7 @@ def change_for_step(repo: Repo, chk: Check) -> None:
         )
     if not found:
         raise AnalysisError(f"{f.where}: replacement of the induction variable not found")
+    _exclusion_predicates(chk, "C17.step-iv", f, fl)
 
 
 # --------------------------------------------------------------------------- MergeForLoops
@@ -285,6 +320,7 @@ def merge_for_loops(repo: Repo, chk: Check) -> None:
                        f"inner induction variable replaced by {ast.unparse(val)[:140]}; expected RemUIOp(k, const(ub of the inner loop))")
     if not (seen_outer and seen_inner):
         raise AnalysisError(f"{f.where}: replacement of the two induction variables not found")
+    _exclusion_predicates(chk, "C17.merge-values", f, fl)
     # perfect nest
     chk.rule(
         "C17.perfect-nest",
@@ -394,6 +430,39 @@ def dims(repo: Repo, chk: Check) -> None:
             ("derivable-outside", g("dimension_outside_loop($op)", op=op)),
         ],
     )
+
+
+def dim_sources(repo: Repo, chk: Check) -> None:
+    chk.rule(
+        "C17.dim-sources",
+        "a dynamic subview size is accepted as derivable outside the loop only if it is a static integer, or produced by an arith.constant, an "
+        "affine.min or a memref.dim that is itself derivable (single-result, effect-free producers whose result #0 is the size): the hoisting "
+        "code re-uses `results[0]` of the producer and moves it, which is wrong for any other kind of op",
+        floor=3,
+    )
+    outer = repo.func(REUSE, "MoveMemrefDims.match_and_rewrite")
+    h = outer.nested("memref_op_outside_loop")
+    chk.analysed(h.key)
+    hfl = Flow(h, repo)
+    allowed = ["isinstance($x, Block)", "isinstance($x, int)", "isinstance($x, arith.ConstantOp)", "isinstance($x, ConstantOp)", "isinstance($x, affine.MinOp)",
+               "isinstance($x, MinOp)", "isinstance($x, memref.DimOp)", "isinstance($x, DimOp)",
+               "isinstance($x, (affine.MinOp, arith.ConstantOp))", "isinstance($x, (arith.ConstantOp, affine.MinOp))"]
+
+    def kind_fact(e: ast.expr) -> bool:
+        e = norm.primary(e)
+        if isinstance(e, ast.BoolOp) and isinstance(e.op, ast.Or):
+            return all(kind_fact(v) for v in e.values)
+        return norm.any_match(allowed, e) is not None
+
+    rets = [s for s in hfl.stmts(ast.Return) if s.reachable and s.node.value is not None and not (isinstance(s.node.value, ast.Constant) and s.node.value.value is False)]
+    if not rets:
+        raise AnalysisError(f"{h.where}: no accepting return")
+    for n_, s in enumerate(rets, 1):
+        ok = all(any(fa.kind == "atom" and kind_fact(fa.expr) and "SubviewOp" not in fa.text for fa in alt.facts.values()) for alt in s.state.alts) and bool(s.state.alts)
+        chk.result(ok, "C17.dim-sources", f"{h.key}:accept#{n_}", s.where(),
+                   "a size is accepted only for the producer kinds the hoisting code can reproduce",
+                   f"`return {ast.unparse(s.node.value)[:70]}` accepts a size whose producer is of no particular kind: a multi-result op's result #1 is replaced by "
+                   "its result #0 (alloc(%tm, %tm) instead of alloc(%tm, %tn)), and a side-effecting producer is moved past the ops that follow it", s.fact_texts)
 
 
 def dim_operand(repo: Repo, chk: Check) -> None:
